@@ -17,7 +17,7 @@ from ..io import MidiOutputDevice, OutputDevice, MidiInputDevice
 from ..constants import DEFAULT_TICKS_PER_BEAT, DEFAULT_TEMPO
 from ..constants import INTERPOLATION_NONE
 from ..exceptions import TrackLimitReachedException, TrackNotFoundException, MultipleOutputDevicesException
-from ..util import make_clock_multiplier
+from ..util import make_clock_multiplier, advance_on_tick_grid
 
 log = logging.getLogger(__name__)
 
@@ -92,6 +92,7 @@ class Timeline:
 
         self.current_time: float = 0
         """ The current time, in beats. """
+        self._tick_grid: tuple = (0.0, None)
 
         self.max_tracks: int = 0
         """ If set, limits the number of tracks that can be created.
@@ -354,9 +355,10 @@ class Timeline:
         #--------------------------------------------------------------------------------
         #--------------------------------------------------------------------------------
         # Keep the timeline's time on the tick grid, so that floating-point error does not
-        # accumulate from one tick to the next.
+        # accumulate from one tick to the next. The grid is re-anchored at the current time
+        # when ticks_per_beat changes, so that every tick lasts exactly one tick_duration.
         #--------------------------------------------------------------------------------
-        self.current_time = round((self.current_time + self.tick_duration) * self.ticks_per_beat) / self.ticks_per_beat
+        self.current_time, self._tick_grid = advance_on_tick_grid(self.current_time, self.ticks_per_beat, self._tick_grid)
 
     def dump(self):
         """
